@@ -1,13 +1,13 @@
 ---------------------------- MODULE Trace_Sparql ----------------------------
-(* Trace validation for the SPARQL half of C13: the data set D follows the logged INSERT DATA / DELETE DATA / clear
-   events; every logged query result is judged by SparqlSem!Agrees.  Failures are printed as <<"MISMATCH", line, what>>. *)
+(* Trace validation for the SPARQL half of C13: the data set D follows the logged INSERT DATA / DELETE DATA / DELETE WHERE /
+   DELETE-INSERT-WHERE / CLEAR events (SparqlSem!Update); every logged query result is judged by SparqlSem!Agrees.  Failures are printed as <<"MISMATCH", line, what>>. *)
 EXTENDS SparqlSem, Json, IOUtils
 Ev == ndJsonDeserialize(IOEnv.TRACE)
 VARIABLES l, D
 TripleSet(ts) == {<<ts[i][1], ts[i][2], ts[i][3]>> : i \in DOMAIN ts}
 Bad(e) == IF e.panic THEN {"panic"}
           ELSE CASE e.a = "reset" -> {}
-                 [] e.a \in {"insert", "delete"} -> IF e.err THEN {"update_error"} ELSE {}
+                 [] e.a \in {"insert", "delete", "update", "delwhere", "clear"} -> IF e.err THEN {"update_error"} ELSE {}
                  [] e.a = "query" -> IF e.err THEN {"query_error"} ELSE IF Agrees(D, e.q, e.rows) THEN {}
                                       ELSE IF HasValuesG(e.q.where) /\ Agrees(D, StripValues(e.q), e.rows) THEN {"values_ignored"} ELSE {"solutions"}
                  \* the whole data set read back through SELECT * must be D (after updates)
@@ -15,10 +15,16 @@ Bad(e) == IF e.panic THEN {"panic"}
 Init == l = 1 /\ D = {}
 Step == /\ l <= Len(Ev)
         /\ LET e == Ev[l] IN
-             /\ (LET b == Bad(e) IN IF b = {} THEN TRUE ELSE PrintT(<<"MISMATCH", l, b>>))
+             /\ (LET b == Bad(e) IN IF b = {} THEN TRUE ELSE PrintT(<<"MISMATCH", l, b>>) /\ (IF "data_set" \in b THEN PrintT(<<"EXPECTED", l, D>>) ELSE TRUE))
              /\ D' = (CASE e.a = "reset" -> {}
                         [] e.a = "insert" -> D \cup TripleSet(e.ts)
                         [] e.a = "delete" -> D \ TripleSet(e.ts)
+                        [] e.a = "update" -> IF e.err \/ e.panic THEN D ELSE Update(D, e.u)
+                        [] e.a = "delwhere" -> IF e.err \/ e.panic THEN D ELSE DeleteWhere(D, e.tps)
+                        [] e.a = "clear" -> IF e.err \/ e.panic THEN D ELSE {}
+                        \* a dump that disagrees is reported once; the model continues from what the engine holds, so
+                        \* that one wrong update does not turn every later answer into a mismatch
+                        [] e.a = "dump" -> IF e.err \/ e.panic THEN D ELSE TripleSet(e.rows)
                         [] OTHER -> D)
         /\ l' = l + 1
 Spec == Init /\ [][Step]_<<l, D>>
